@@ -267,9 +267,29 @@ def ref_pess(T, N, S, P, key_slack, gate=None):
 
 
 # -- exact geometric definitions of the table entries (realisation / replay) ----------------------
-def rect_dom_def(W, ri, rj, s):
-    from checks.c09 import rect_closed_form
-    return rect_closed_form(W, zs(ri.lower), zs(ri.upper), zs(rj.lower), zs(rj.upper), s)
+MARGIN = Fraction(1, 100)   # realised counterexamples are asked to be this far from every predicate boundary
+
+
+def _rect_facet_margins(W, ri, rj, s):
+    l1, u1, l2, u2 = zs(ri.lower), zs(ri.upper), zs(rj.lower), zs(rj.upper)
+    out = []
+    for row in np.asarray(W, dtype=float):
+        acc = sym.rv(0)
+        for i, w in enumerate(row):
+            wq = sym.rv(w)
+            acc = acc + wq * ((l2[i] - u1[i]) if w >= 0 else (u2[i] - l1[i])) + wq * s[i]
+        out.append(acc)
+    return out
+
+
+def rect_dom_def(W, ri, rj, s, value=None):
+    """closed form of ∀∀; with `value` given: the robust version (margin on the deciding side)"""
+    mg = _rect_facet_margins(W, ri, rj, s)
+    if value is None:
+        return zand([a >= 0 for a in mg])
+    if value:
+        return zand([a >= sym.rv(MARGIN) for a in mg])
+    return zor([a <= -sym.rv(MARGIN) for a in mg])
 
 
 def rect_cov_def(ctx, W, ri, rj, s, value):
@@ -279,11 +299,11 @@ def rect_cov_def(ctx, W, ri, rj, s, value):
     m = W.shape[1]
     z = [ctx.fresh("rz") for _ in range(m)]
     zp = [ctx.fresh("rzp") for _ in range(m)]
-    f = rect_oracle(Wq, zs(ri.lower), zs(ri.upper), zs(rj.lower), zs(rj.upper), s, z, zp)
     if value:
-        return f
+        return rect_oracle(Wq, zs(ri.lower), zs(ri.upper), zs(rj.lower), zs(rj.upper), s, z, zp, margin=sym.rv(MARGIN))
+    f = rect_oracle(Wq, zs(ri.lower), zs(ri.upper), zs(rj.lower), zs(rj.upper), s, z, zp)
     atoms = lp.linear_atoms(f, z + zp)
-    cert, _ = lp.farkas_infeasible(atoms, ctx.fresh)
+    cert, _ = lp.farkas_infeasible(atoms, ctx.fresh, margin=MARGIN)
     return cert
 
 
@@ -301,23 +321,28 @@ def rect_pd_def(ctx, W, rj, ri, value):
         for v in verts_j:
             z = [ctx.fresh("pz") for _ in range(m)]
             out.append(z3.And(zand([z3.And(li[k] <= z[k], z[k] <= ui[k]) for k in range(m)]),
-                              zand([dotz(row, [v[k] - z[k] for k in range(m)]) >= 0 for row in Wq])))
+                              zand([dotz(row, [v[k] - z[k] for k in range(m)]) >= sym.rv(MARGIN) for row in Wq])))
         return zand(out)
     alts = []
     for v in verts_j:
         d = [ctx.fresh("pd") for _ in range(K)]
         q = [dotz(row, v) for row in Wq]
         alts.append(z3.And(zand([x >= 0 for x in d]), sum(d, sym.rv(0)) == 1,
-                           zand([dotz(d, q) < dotz(d, [dotz(row, vi) for row in Wq]) for vi in verts_i])))
+                           zand([dotz(d, q) + sym.rv(MARGIN) <= dotz(d, [dotz(row, vi) for row in Wq]) for vi in verts_i])))
     return zor(alts)
 
 
-def sphere_dom_def(W, ri, rj, s):
+def sphere_dom_def(W, ri, rj, s, value=None):
     """spheres (Σ = I): min over the balls of w_n·(y−x) = w_n·(c_j−c_i) − (α_i+α_j)‖w_n‖, ‖w_n‖ = 1"""
     Wq = Wz(W)
     ci, cj = zs(ri.center), zs(rj.center)
-    return zand([dotz(row, [cj[k] - ci[k] for k in range(len(ci))]) - sym.to_z3(ri.alpha) - sym.to_z3(rj.alpha) >= -s[n]
-                 for n, row in enumerate(Wq)])
+    mg = [dotz(row, [cj[k] - ci[k] for k in range(len(ci))]) - sym.to_z3(ri.alpha) - sym.to_z3(rj.alpha) + s[n]
+          for n, row in enumerate(Wq)]
+    if value is None:
+        return zand([a >= 0 for a in mg])
+    if value:
+        return zand([a >= sym.rv(MARGIN) for a in mg])
+    return zor([a <= -sym.rv(MARGIN) for a in mg])
 
 
 def sphere_cov_def(ctx, W, ri, rj, s, value):
@@ -331,10 +356,13 @@ def sphere_cov_def(ctx, W, ri, rj, s, value):
     if value:
         x = [ctx.fresh("sx") for _ in range(m)]
         y = [ctx.fresh("sy") for _ in range(m)]
-        return z3.And(sum(((x[k] - ci[k]) * (x[k] - ci[k]) for k in range(m)), sym.rv(0)) <= ai * ai,
-                      sum(((y[k] - cj[k]) * (y[k] - cj[k]) for k in range(m)), sym.rv(0)) <= aj * aj,
-                      zand([dotz(row, [y[k] - x[k] for k in range(m)]) >= s[n] for n, row in enumerate(Wq)]))
-    return zor([dotz(row, [cj[k] - ci[k] for k in range(m)]) + ai + aj < s[n] for n, row in enumerate(Wq)])
+        sh = 1 - sym.rv(MARGIN)
+        return z3.And(sum(((x[k] - ci[k]) * (x[k] - ci[k]) for k in range(m)), sym.rv(0)) <= ai * ai * sh * sh,
+                      sum(((y[k] - cj[k]) * (y[k] - cj[k]) for k in range(m)), sym.rv(0)) <= aj * aj * sh * sh,
+                      zand([dotz(row, [y[k] - x[k] for k in range(m)]) >= s[n] + sym.rv(MARGIN)
+                            for n, row in enumerate(Wq)]))
+    return zor([dotz(row, [cj[k] - ci[k] for k in range(m)]) + ai + aj <= s[n] - sym.rv(MARGIN)
+                for n, row in enumerate(Wq)])
 
 
 def slack_terms(key_source, n):
